@@ -15,7 +15,7 @@
                                                      <->  `slice rest offset look_ahead <> None`.
    Every step costs O(offset + look_ahead) instead of O(n), which keeps the extracted model fast. *)
 From AG Require Import Base.Prelude Base.Res.
-From Coq Require Import Floats.
+From Coq Require Import Floats QArith Qcanon.
 
 Local Open Scope nat_scope.
 
@@ -185,6 +185,14 @@ End Ls.
 
 End Greedy.
 
+(* ------------------------------------------------------------------------------------------ *)
+(* spec-level helpers used in the statements of Props/C17.v *)
+
+Definition res_map {A B} (f : A -> B) (r : res A) : res B :=
+  match r with Ok a => Ok (f a) | Err k => Err k | Panic => Panic end.
+(* a sweep result with every amplitude scaled by sc and the residual by sc2 *)
+Definition sc_out (F : Type) (sc sc2 : F -> F) (p : F * list F) : F * list F := (sc2 (fst p), map sc (snd p)).
+
 (* `lo..=hi` *)
 Definition range_incl (lo hi : nat) : list nat := seq lo (S hi - lo).
 
@@ -213,3 +221,12 @@ Definition pad_deconv_f (signal pad_response : list float) : res (list float) :=
 (* wires.rs:130 ls_deconvolution(&signal, &WIRE_RESPONSE, 0..=1, 3..=12) *)
 Definition wire_deconv_f (signal wire_response : list float) : res (list float) :=
   ls_deconv_f signal wire_response (range_incl 0 1) (range_incl 3 12).
+
+(* ------------------------------------------------------------------------------------------ *)
+(* exact instance: canonical rationals Qc (Leibniz equality, decidable order); no NaN, no rounding *)
+
+Definition q_dec (a b : Qc) : bool := if Qclt_le_dec a b then true else false.   (* a < b *)
+Definition q_neg (x : Qc) : bool := q_dec x 0%Qc.
+Definition q_nonneg (x : Qc) : bool := negb (q_dec x 0%Qc).
+Definition q_min (a b : Qc) : Qc := if q_dec b a then b else a.
+Definition nn_greedy_q := nn_greedy Qc 0%Qc 0%Qc Qcplus Qcminus Qcmult Qcdiv q_min q_neg q_nonneg.
